@@ -66,7 +66,15 @@ var parserWorkReceiveChannel = func() chan<- jobIn {
 
 					values := make([]octosql.Value, len(job.fields))
 					for i := range values {
-						values[i], _ = getOctoSQLValue(job.fields[i].Type, o.Get(job.fields[i].Name))
+						var ok bool
+						values[i], ok = getOctoSQLValue(job.fields[i].Type, o.Get(job.fields[i].Name))
+						if !ok {
+							out.err = fmt.Errorf("value of field '%s' doesn't match its type '%s', inferred from the first rows of the file", job.fields[i].Name, job.fields[i].Type)
+							break
+						}
+					}
+					if out.err != nil {
+						continue
 					}
 
 					out.record = NewRecord(values, false, time.Time{})
